@@ -4,6 +4,7 @@ import Frugal.Proofs.SkipCorrect
 import Frugal.Proofs.DecodeSound2
 import Frugal.Proofs.DecodeErrors
 import Frugal.Props.Inst.Params
+import Frugal.Proofs.Cells
 import Frugal.Props.Inst.F_facts_allocationDiscipline
 import Frugal.Props.Inst.F_skeleton_decoder
 import Frugal.Props.Inst.F_valid_minWire
@@ -55,6 +56,20 @@ theorem consumed_within_input (S : Schema) (hS : S.ok = true) (sid : Nat) (b : B
   obtain ⟨fs, tr, _, e, hn⟩ := success_means_wellformed_prefix S hS sid b dest v n h
   rw [e, hn]
   simp
+
+/-- memory on the accepting side: the message a successful decode consumed has fewer *cells* — struct
+    field values, list / set elements, map keys and values, at every nesting level: the things the decoder
+    allocates storage for, each of bounded size — than bytes.  What `DecodeObject` accepts it built in memory
+    proportional to the input it consumed; a disproportion (the open finding D22: nested counts each
+    claiming the rest of the input) is confined to inputs that end in an error. -/
+theorem accepted_input_has_fewer_cells_than_bytes (S : Schema) (hS : S.ok = true) (sid : Nat) (b : Bytes)
+    (dest v : Val) (n : Nat) (h : decodeM Generated.params S sid b dest = .ok (v, n)) :
+    ∃ fs trailing, b = ser (.strct fs) ++ trailing ∧ n = (ser (.strct fs)).length ∧
+      cells (.strct fs) < n := by
+  obtain ⟨fs, tr, _, e, hn⟩ := success_means_wellformed_prefix S hS sid b dest v n h
+  refine ⟨fs, tr, e, hn, ?_⟩
+  have := cells_lt_ser (.strct fs)
+  omega
 
 /-- … and conversely on every well-formed message the decoder does what the reference reader does
     (C03): together, success exactly when the bytes begin with a well-formed message that a reader
